@@ -388,6 +388,98 @@ def a_random(rng, n):
     return out
 
 
+# ---------------------------------------------------------------------------------------------- the model side (driver request aw)
+def a_model_request(case):
+    """-> (request line, index of the model's answer word for every session step)"""
+    ix = {n: i for i, n in enumerate(AN)}
+    steps, at = [], []
+    for st in case['steps']:
+        if st[0] == 'set':
+            steps.append('S@%d' % (st[1] == 'aw'))
+        elif st[0] == 'edit':
+            steps.append('P@' + vlib.hx(st[1].encode() + b'\n'))
+        elif st[0] == 'acts':
+            if not st[1]:
+                steps.append('-')
+            for k, (kind, name, stamp) in enumerate(st[1]):
+                if kind in ('write', 'replace'):
+                    steps.append('F@%s@%d@%s@%d' % (kind[0], ix[name], vlib.hx(b'foreign %d\n' % k * 3), A_MODEL_STAMP[stamp]))
+                elif kind == 'touch':
+                    steps.append('F@t@%d@%d' % (ix[name], A_MODEL_STAMP[stamp]))
+                else:
+                    steps.append('F@d@%d' % ix[name])
+        else:
+            kind, bang, arg = a_parse(st[1])
+            a = '-' if arg == '' else arg if arg in ('%', '#') else str(ix[arg]) if arg in ix else arg
+            if kind == 'w':
+                steps.append('W@%s@%s' % ('!' if bang else '-', a))
+            elif kind in ('q', 'wq', 'x', 'xa'):
+                steps.append('Q@%s%s@%s' % (kind, '!' if bang else '', a))
+            elif kind == 'e':
+                steps.append('E@%s@%d' % (a, bang))
+            elif kind == 'n':
+                steps.append('N')
+            elif kind == 'b':
+                steps.append('B@%s@%d' % (arg, bang))
+            else:
+                steps.append('X')
+        at.append(len(steps) - 1)
+    req = 'aw names=%d files=%s args=%s steps=%s' % (
+        len(AN), ','.join('%d:%s:%d' % (ix[n], vlib.hx(a_c0(n)), A_MODEL_STAMP[st]) for n, st in sorted(case['files'].items())) or '-',
+        ','.join(str(ix[n]) for n in case['args']), ';'.join(steps))
+    return req, at
+
+
+def a_compare(case, ob, mline):
+    req, at = a_model_request(case)
+    words = mline.split(' ')
+    if len(words) <= max(at):
+        return ['the model answered %d words for %d steps' % (len(words), max(at) + 1)]
+    diffs = []
+    for k, st in enumerate(case['steps']):
+        mcur, mq, mst, mdir = words[at[k]].split(':')
+        mcur = AN[int(mcur)] if int(mcur) >= 0 else None
+        gone = st[0] == 'cmd' and not ob['back'].get(k)
+        if (mq == '1') != gone:
+            diffs.append('step %d `%s`: the editor is gone: model %s, editor %s' % (k, st[-1] if st[0] == 'cmd' else st[0], mq == '1', gone))
+            break
+        sn = ob['final'] if gone else ob['snaps'].get(k)
+        if sn is None:
+            diffs.append('step %d: no snapshot (the session broke down)' % k)
+            break
+        if not gone and sn['cur'] != mcur:
+            diffs.append('step %d `%s`: current buffer: model %s, editor %s' % (k, st[-1] if st[0] == 'cmd' else st[0], mcur, sn['cur']))
+            break
+        for n, mv in zip(AN, mdir.split(',')):
+            mval = None if mv == 'absent' else vlib.unhx(mv)
+            rval = sn[n][1] if sn.get(n) else None
+            if mval != rval:
+                diffs.append('step %d `%s`: file %s: model %s, editor %s' % (k, st[-1] if st[0] == 'cmd' else st[0], n, base.g_show(mval), base.g_show(rval)))
+        if diffs:
+            break
+        if st[0] == 'cmd' and not gone:
+            kind, bang, arg = a_parse(st[1])
+            if kind == 'w' and (mst == 'ok') != (ob['cls'].get(k) == 'ok'):
+                diffs.append('step %d `%s`: message class: model %s, editor %s (%r)' % (k, st[1], mst, ob['cls'].get(k), ob['msg'].get(k)))
+                break
+        if gone:
+            break
+    return diffs
+
+
+def a_ambiguous(ob):
+    """the editor wrote one file in two different seconds of this session: whether its second save is refused ("file changed", the
+    remembered stamp is the first second's) depends on the clock; the model writes everything at one instant"""
+    lo, hi = ob['base'] - 2, ob['base'] + 600
+    seen = {n: set() for n in AN}
+    for sn in list(ob['snaps'].values()) + [ob['final']]:
+        if sn:
+            for n in AN:
+                if sn.get(n) and lo <= sn[n][0] <= hi:
+                    seen[n].add(sn[n][0])
+    return any(len(v) > 1 for v in seen.values())
+
+
 def a_quick_sample(cases, rng, per=9):
     """stratified: the same quota from every (option, kind of history, write command) stratum"""
     strata = {}
@@ -414,7 +506,15 @@ def run_aw(ctx, vi, model, awork):
             ob = a_run(vi, case, timeout=90)
         return ob
     obs = vlib.pmap(one, awork)
-    nref = nprot = ncmd = ncand = 0
+    out_m = None
+    if model:
+        from props import c01
+        reqs = [a_model_request(c)[0] for c in awork]
+        rc, out_m, err = c01.run_model(model, reqs)
+        if rc != 0 or len(out_m) != len(reqs):
+            res.disagree({'what': 'model driver failed on the autowrite stream: rc=%d, %d answers for %d requests' % (rc, len(out_m), len(reqs)), 'stderr': err[-800:]})
+            out_m = None
+    nref = nprot = ncmd = ncand = namb = 0
     for i, (case, ob) in enumerate(zip(awork, obs)):
         res.evaluations += 1
         res.count('autowrite stream: ' + case['tag'].split(',')[0].split(':')[0])
@@ -443,9 +543,18 @@ def run_aw(ctx, vi, model, awork):
                                         'open/write/close calls of the editor': [(c['op'], c['name']) for c in ob['calls'] if c['i'] is not None][:24]},
                            'script': a_script(case).decode('latin-1')})
             continue
+        if out_m is not None and a_ambiguous(ob):
+            namb += 1
+        elif out_m is not None:
+            diffs = a_compare(case, ob, out_m[i])
+            if diffs:
+                res.disagree({'what': 'model and editor differ (autowrite stream): ' + '; '.join(diffs), 'input': {'case': case}, 'model': out_m[i][:400],
+                              'implementation': {'per command step': {str(k): {'class': ob['cls'].get(k), 'came back': ob['back'].get(k)} for k in ob['cls']}},
+                              'script': a_script(case).decode('latin-1')})
         if i % 199 == 0:
             res.sample({'case': case, 'reference': {str(k): {'cmd': t['cmd'], 'protected': t['protected'], 'must_refuse': t['must_refuse'], 'class': t['class'], 'gone': t['gone']} for k, t in trace.items()}})
     res.extra['autowrite_stream_sessions'] = len(awork)
+    res.extra['autowrite_stream_clock_dependent_skipped_in_comparison'] = namb
     res.extra['autowrite_stream_command_steps_judged'] = ncmd
     res.extra['autowrite_stream_steps_with_a_protected_file'] = nprot
     res.extra['autowrite_stream_writes_the_reference_says_must_be_refused'] = nref
